@@ -48,10 +48,10 @@ def main():
                      'kind_free_text': 'Coq 8.16 development (theories/, Props/), extracted to OCaml (ocaml/modelrun) and '
                                        'tied to /repo by harness/props/*.py'}],
         'checks': checks,
-        'notes': '24 minimal fix: commits in /repo repair the genuine defects found while building (DESIGN.md 12.2; each is recorded as a '
+        'notes': '25 minimal fix: commits in /repo repair the genuine defects found while building (DESIGN.md 12.2; each is recorded as a '
                  '`fixed:` line in KNOWN_FINDINGS.txt and suppresses nothing); three defects are listed as findings (C12 implicit iteration without a '
                  'bound, C18 rp round trip, C19 numba copy lacks five functions). No source hooks: MPI and parallel HDF5 are replaced by import '
-                 'precedence. seeded/ holds 100 independently produced breaking changes with the check that catches each (DESIGN.md 12.4).',
+                 'precedence. seeded/ holds 140 independently produced breaking changes with the check that catches each (DESIGN.md 12.4).',
         'not_applicable': [{'property_id': p, 'reason': NA.get(p, NOT_YET)} for p in ALL if p not in CLAIMED],
     }
     with open(os.path.join(VERIF, 'MANIFEST.json'), 'w') as f:
